@@ -63,6 +63,26 @@ class ModuleSource:
         self.lines = text.splitlines()
 
 
+# parsed files, shared by all instances run in this process (and inherited by forked workers);
+# the key includes the in-memory mutations that apply to the file
+_GLOBAL_CACHE = {}
+
+
+def prewarm(mutations=None):
+    """Parse every module of the repo package once in the parent process before forking workers."""
+    import xknx
+
+    root = os.path.dirname(xknx.__file__)
+    s = Sources(mutations)
+    for d, _, files in os.walk(root):
+        for f in files:
+            if f.endswith(".py"):
+                try:
+                    s.module_source(os.path.join(d, f))
+                except Unsupported:
+                    pass
+
+
 class Sources:
     def __init__(self, mutations=None):
         # mutations: list of (path suffix, old text, new text)
@@ -74,6 +94,15 @@ class Sources:
     def module_source(self, filename):
         ms = self.cache.get(filename)
         if ms is None:
+            applicable = tuple(m for m in self.mutations if filename.endswith(m[0]))
+            gkey = (filename, applicable)
+            ms = _GLOBAL_CACHE.get(gkey)
+            if ms is not None:
+                for i, m in enumerate(self.mutations):
+                    if filename.endswith(m[0]):
+                        self.used_mutations.add(i)
+                self.cache[filename] = ms
+                return ms
             with open(filename, encoding="utf-8") as fh:
                 text = fh.read()
             for i, (suffix, old, new) in enumerate(self.mutations):
@@ -84,6 +113,7 @@ class Sources:
                     self.used_mutations.add(i)
             ms = ModuleSource(filename, text)
             self.cache[filename] = ms
+            _GLOBAL_CACHE[gkey] = ms
         return ms
 
     def func_ast(self, fn):
